@@ -464,7 +464,13 @@ func c14ModelP(s *c14Sym, w, h, Q int) float64 {
 
 func c14Sizes(n, Q, q int, r *Rng) []int {
 	N := n + Q
-	xs := []int{0, n - 1, n, n + 1, 2*n - 1, 2 * n, 2*n + 1, 3*n + q, 8 * n, N - 1, N, N + 1, 2*N - 1, 2 * N, 2*N + 1, 3*N + 1, r.Range(0, 8*n)}
+	xs := []int{0, n - 1, n, n + 1, 2*n - 1, 2 * n, 2*n + 1, 3*n + q, 8 * n, N - 1, N, N + 1, 2*N - 1, 2 * N, 2*N + 1, 3*N + 1, r.Range(0, 8*n),
+		// module sizes that are multiples of the 32-bit word (every module block then starts and ends on a word
+		// boundary when the padding does too) and their neighbours
+		32 * N, 32*N + 1, 32 * n, 16 * N}
+	if N <= 40 {
+		xs = append(xs, 64*N)
+	}
 	seen := map[int]bool{}
 	var out []int
 	for _, x := range xs {
@@ -478,7 +484,7 @@ func c14Sizes(n, Q, q int, r *Rng) []int {
 
 func runC14(c *Ctx) {
 	c.res.Rule = "symbols: 3 QR (v1..v7, EC L/Q/H), 4 Data Matrix (square + rectangular), 3 valid contents for each of the nine 1-D writers; " +
-		"requested sizes {0,n-1,n,n+1,2n-1,2n,2n+1,3n+q,8n} and the same around multiples of n+Q, on both axes (1-D heights {0,1,2,3,50}) x margins {none,0,1,4,9,10,20} (int or numeric string); " +
+		"requested sizes {0,n-1,n,n+1,2n-1,2n,2n+1,3n+q,8n} and the same around multiples of n+Q, plus word-aligned module sizes {16(n+Q),32(n+Q),32(n+Q)+1,32n,64(n+Q)}, on both axes (1-D heights {0,1,2,3,50}) x margins {none,0,1,4,9,10,20} (int or numeric string); " +
 		"thorough: all 0..8n x 0..8n for the smallest symbol of each writer x margins 0..20 (model compared on a cost-bounded sample); " +
 		"oracle = formula of the property on the real writers; non-trivial = distinct (symbol,size,margin) case"
 	syms := c14Symbols(c)
